@@ -236,3 +236,70 @@ Proof.
     + rewrite Lf in A0. inversion A0; subst r0. rewrite B0 in G. apply has_lookup in K0. destruct K0 as (? & ? & K0 & _). congruence.
     + rewrite Lf in A1. inversion A1; subst r1. rewrite B1 in G. apply has_lookup in K1. destruct K1 as (? & ? & K1 & _). congruence.
 Qed.
+
+(* ---------- partner_host finds THE chunk that holds f (positions are unique under the invariant) ---------- *)
+Lemma partner_host_chunks_none chunks f :
+  ~ In f (flat_map chunk_proxies chunks) -> partner_host_chunks chunks f = None.
+Proof.
+  induction chunks as [|c l IH]; cbn [partner_host_chunks flat_map chunk_proxies app In]; [reflexivity|].
+  intros H. destruct (N.eqb (ck_proxy0 c) f) eqn:E0; [apply N.eqb_eq in E0; tauto|].
+  destruct (N.eqb (ck_proxy1 c) f) eqn:E1; [apply N.eqb_eq in E1; tauto|]. apply IH. tauto.
+Qed.
+
+Lemma partner_host_chunks_complete chunks f c ph :
+  NoDup (flat_map chunk_proxies chunks) -> In c chunks ->
+  ((ck_proxy0 c = f /\ ph = ck_host1 c) \/ (ck_proxy1 c = f /\ ph = ck_host0 c)) ->
+  partner_host_chunks chunks f = Some ph.
+Proof.
+  induction chunks as [|c0 l IH]; cbn [partner_host_chunks flat_map chunk_proxies app In]; [tauto|].
+  intros Hnd Hin Hp.
+  apply NoDup_cons_iff in Hnd. destruct Hnd as [Hn0 Hnd]. apply NoDup_cons_iff in Hnd. destruct Hnd as [Hn1 Hnd].
+  cbn [In] in Hn0.
+  assert (Hfc : In c l -> In f (flat_map chunk_proxies l)).
+  { intros Hc. apply in_flat_map. exists c. split; [exact Hc|]. cbn. destruct Hp as [[<- _]|[<- _]]; auto. }
+  destruct Hin as [->|Hin].
+  - destruct Hp as [[E0 ->]|[E1 ->]].
+    + rewrite E0, N.eqb_refl. reflexivity.
+    + assert (N.eqb (ck_proxy0 c) f = false) by (apply N.eqb_neq; intros E; apply Hn0; left; congruence).
+      rewrite H, E1, N.eqb_refl. reflexivity.
+  - specialize (Hfc Hin).
+    destruct (N.eqb (ck_proxy0 c0) f) eqn:E0; [apply N.eqb_eq in E0; exfalso; apply Hn0; right; congruence|].
+    destruct (N.eqb (ck_proxy1 c0) f) eqn:E1; [apply N.eqb_eq in E1; exfalso; apply Hn1; congruence|].
+    apply IH; assumption.
+Qed.
+
+Lemma partner_host_complete ps cs f n cl c ph :
+  acct ps cs -> alookup n cs = Some cl -> In c (cl_chunks cl) ->
+  ((ck_proxy0 c = f /\ ph = ck_host1 c) \/ (ck_proxy1 c = f /\ ph = ck_host0 c)) ->
+  partner_host cs f = Some ph.
+Proof.
+  intros (Hps & Hcs & Hok & Hback) L Hc Hp.
+  assert (Hf : In f (cluster_proxies cl)).
+  { unfold cluster_proxies. apply in_flat_map. exists c. split; [exact Hc|]. cbn. destruct Hp as [[<- _]|[<- _]]; auto. }
+  destruct (in_cluster_tagged ps n cl f (Hok _ _ L) Hf) as (fr & Lf & Cf).
+  assert (Hsub : forall k v, In (k, v) cs -> alookup k cs = Some v) by (intros; apply In_alookup_sorted; auto).
+  apply alookup_In in L. revert L Hsub. generalize cs at 1 2 4 as l.
+  induction l as [|[k v] l IH]; intros L Hsub; [destruct L|]. cbn [partner_host snd].
+  destruct (N.eq_dec k n) as [->|Hkn].
+  - assert (v = cl).
+    { pose proof (Hsub n v (or_introl eq_refl)) as A. pose proof (Hsub n cl L) as B. congruence. }
+    subst v. destruct (Hok _ _ (Hsub _ _ L)) as [_ Hnd].
+    rewrite (partner_host_chunks_complete _ f c ph Hnd Hc Hp). reflexivity.
+  - rewrite partner_host_chunks_none.
+    + apply IH; [|intros; apply Hsub; right; assumption]. destruct L as [E|L]; [inversion E; congruence|exact L].
+    + intros Hin. destruct (in_cluster_tagged ps k v f (Hok _ _ (Hsub _ _ (or_introl eq_refl))) Hin) as (fr' & Lf' & Cf'). congruence.
+Qed.
+
+(* the replacement theorem phrased with the chunk itself *)
+Lemma replacement_host_chunk s f ch s' r n cl c ph :
+  acct_inv s -> replace_failed_proxy s f ch = (s', Done (Some r)) ->
+  alookup n (st_clusters s) = Some cl -> In c (cl_chunks cl) ->
+  ((ck_proxy0 c = f /\ ph = ck_host1 c) \/ (ck_proxy1 c = f /\ ph = ck_host0 c)) ->
+  (exists h, h <> ph /\ 0 < cnt_of (host_counts (free_proxies s)) h) ->
+  exists rr, alookup r (st_proxies s) = Some rr /\ is_free s (r, rr) = true /\ pr_host rr <> ph.
+Proof.
+  intros Hinv H L Hc Hp Hfree.
+  destruct (replacement_host s f ch s' r Hinv H) as (fr & name & rr & _ & _ & _ & Lr & Fr & _ & Hhost).
+  exists rr. split; [exact Lr|]. split; [exact Fr|]. apply Hhost; [|exact Hfree].
+  eapply partner_host_complete; eauto.
+Qed.
